@@ -156,6 +156,13 @@ fn remove_auth_and_integrity_attrs(attributes: &mut StunAttributes) {
     attributes.remove::<MessageIntegritySha256>();
 }
 
+#[cfg(feature = "verif-hooks")]
+impl ShortTermCredentialClient {
+    pub(crate) fn verif_state(&self) -> (Option<Integrity>, Vec<TransactionId>) {
+        (self.integrity, self.validator.verif_violated())
+    }
+}
+
 #[cfg(test)]
 mod short_term_cred_mech_tests {
     use super::*;
